@@ -17,9 +17,10 @@ Next == /\ Len(rows) < MaxN
 Spec == Init /\ [][Next]_rows
 Full == AllClassesHaveTwo(rows, Classes)
 P == Pooled(rows, Classes, S)
-Lemmas == Full => /\ PSD(P, S) /\ IsPInv(PInv(P, S), P, S)
+Lemmas == Len(rows) > 0 => /\ PSD(P, S) /\ IsPInv(PInv(P, S), P, S)
                   /\ PooledK(rows, Classes, S) = P
                   /\ TemplateK(rows, Classes, S, "fixed") = Templates(rows, Classes, S)
 MeanLemma == Len(rows) > 0 => TemplateK(rows, Classes, S, "fixed") = Templates(rows, Classes, S)
-Emit == (Gen /\ Full) => PrintT(<<"EMIT", ToJson([rows |-> rows, tpl |-> Templates(rows, Classes, S), pooled |-> P, pinv |-> PInv(P, S)])>>)
+\* emitted: every state where all classes have >= 2 traces, and a third of the others (empty / single-trace classes)
+Emit == (Gen /\ Len(rows) > 0 /\ (Full \/ Len(rows) % 3 = 1)) => PrintT(<<"EMIT", ToJson([rows |-> rows, tpl |-> Templates(rows, Classes, S), pooled |-> P, pinv |-> PInv(P, S)])>>)
 =============================================================================
